@@ -8,6 +8,7 @@ import (
 	"context"
 	"encoding/json"
 	"fmt"
+	"github.com/gorilla/websocket"
 	"net/http/httptest"
 	"os"
 	"regexp"
@@ -218,6 +219,11 @@ func Cancellation(d *fw.Driver, res *fw.Result, seed int64, thorough bool) error
 			it := &item{tok: base + i, kind: "block", doCancel: r.Intn(2) == 0, done: make(chan struct{})}
 			if instant == "sub-established" || r.Intn(4) == 0 {
 				it.kind = "sub"
+			} else if (instant == "after-send" || instant == "racing-response") && r.Intn(3) == 0 {
+				it.kind = "subslow" // a subscription whose handler has not returned its channel yet
+			}
+			if i == 0 && instant == "after-send" {
+				it.kind, it.doCancel = "subslow", true // always one subscription cancelled while its handler is still setting up
 			}
 			it.ctx, it.cancel = context.WithCancel(ctx)
 			items = append(items, it)
@@ -236,6 +242,12 @@ func Cancellation(d *fw.Driver, res *fw.Result, seed int64, thorough bool) error
 				defer close(it.done)
 				if it.kind == "sub" {
 					ch, err := cl.Sub(it.ctx, it.tok, -1)
+					if err == nil && ch != nil {
+						for range ch {
+						}
+					}
+				} else if it.kind == "subslow" {
+					ch, err := cl.SubSlow(it.ctx, it.tok, -1)
 					if err == nil && ch != nil {
 						for range ch {
 						}
@@ -266,7 +278,7 @@ func Cancellation(d *fw.Driver, res *fw.Result, seed int64, thorough bool) error
 		}
 		for _, it := range items {
 			if it.doCancel && instant != "before-send" {
-				if instant == "racing-response" && it.kind == "block" {
+				if instant == "racing-response" && (it.kind == "block" || it.kind == "subslow") {
 					go e.H.C.Release(it.tok)
 				}
 				it.cancel()
@@ -336,7 +348,85 @@ func Cancellation(d *fw.Driver, res *fw.Result, seed int64, thorough bool) error
 		cancelAll()
 		e.Close()
 	}
+	if err := rawIDCancel(res, seed); err != nil {
+		return err
+	}
 	return httpCancel(res)
+}
+
+// rawIDCancel: a peer that is not this library's client — request ids of every valid JSON type (string,
+// integer, fraction, large number) on one connection; `xrpc.cancel [id]` must cancel exactly the
+// handler of the request that carried that id, whatever its type.
+func rawIDCancel(res *fw.Result, seed int64) error {
+	e, err := scen.NewEnv(seed+4242, 1)
+	if err != nil {
+		return err
+	}
+	defer e.Close()
+	conn, _, err := websocket.DefaultDialer.Dial("ws"+strings.TrimPrefix(e.HTTPURL(), "http"), nil)
+	if err != nil {
+		return err
+	}
+	defer conn.Close()
+	go func() {
+		for {
+			if _, _, err := conn.ReadMessage(); err != nil {
+				return
+			}
+		}
+	}()
+	ids := []string{`"req-a"`, `7`, `7.5`, `1e30`, `""`, `"7"`}
+	base := 760000
+	for i, id := range ids {
+		conn.WriteMessage(websocket.TextMessage, []byte(fmt.Sprintf(`{"jsonrpc":"2.0","id":%s,"method":"SH.Block","params":[%d]}`, id, base+i)))
+	}
+	deadline := time.Now().Add(3 * time.Second)
+	for time.Now().Before(deadline) {
+		all := true
+		for i := range ids {
+			if e.H.C.Entered(base+i) == 0 {
+				all = false
+			}
+		}
+		if all {
+			break
+		}
+		time.Sleep(time.Millisecond)
+	}
+	order := []int{0, 5, 2, 3, 4, 1}
+	cancelled := map[int]bool{}
+	for _, k := range order {
+		conn.WriteMessage(websocket.TextMessage, []byte(fmt.Sprintf(`{"jsonrpc":"2.0","method":"xrpc.cancel","params":[%s]}`, ids[k])))
+		cancelled[k] = true
+		ok := false
+		for w := 0; w < 1500; w++ {
+			if c, known := e.H.C.CtxErr(base + k); known && c {
+				ok = true
+				break
+			}
+			time.Sleep(time.Millisecond)
+		}
+		sig := "raw cancel id=" + ids[k]
+		if !ok {
+			res.Add(fw.Finding{Kind: "monitor", Signature: sig + " not delivered", Detail: fmt.Sprintf("xrpc.cancel [%s] did not cancel the handler of the request that carried id %s", ids[k], ids[k]),
+				Case: map[string]interface{}{"scenario": "raw-id-cancel", "id": ids[k]}})
+		}
+		for j := range ids {
+			if cancelled[j] {
+				continue
+			}
+			if c, known := e.H.C.CtxErr(base + j); known && c {
+				res.Add(fw.Finding{Kind: "monitor", Signature: sig + " spurious", Detail: fmt.Sprintf("xrpc.cancel [%s] cancelled the handler of the request with id %s", ids[k], ids[j]),
+					Case: map[string]interface{}{"scenario": "raw-id-cancel", "id": ids[k], "victim": ids[j]}})
+			}
+		}
+		res.Count("rawcancel")
+		res.Eval(true, []interface{}{"raw-id-cancel", ids[k]})
+	}
+	for i := range ids {
+		e.H.C.Release(base + i)
+	}
+	return nil
 }
 
 // httpCancel: over HTTP the abort of the request cancels the handler's context, and only that one's.
